@@ -62,7 +62,7 @@ def evDev (out : List (OutEntry Nat Float)) (ev : Ev Nat Float) : Float :=
 it writes with the functional model's output table -/
 def streamCheck (cs : Comps Nat) (V : List Nat) (out : List (OutEntry Nat Float)) : String :=
   let mo := maxOrder cs
-  if mo < 2 then "stream shape=true consumed=true events=0 probs=0 maxdev=0 zip=true p1shape=true p1ok=true" else
+  if mo < 2 then "stream shape=true consumed=true events=0 probs=0 maxdev=0 zip=true p1shape=true p1ok=true matok=true" else
   let streams := (List.range (mo - 1)).map (fun j => sortedStream cs (j + 2))
   let X := sortedX cs
   let Y := sortedY cs
@@ -76,11 +76,19 @@ def streamCheck (cs : Comps Nat) (V : List Nat) (out : List (OutEntry Nat Float)
   let p1streams := (List.range mo).map (fun j => p1Stream cs (j + 1))
   let Yg := sortedYg cs
   let p1shape := decide (levelsE (fun _ => [0]) Yg (mo - 1) (Yg []) [] = p1streams)
-  let r1 := handleSuffix cs (2 * (unionGrams cs).length + 10) p1streams [] (mergeFb cs [])
+  -- the k-way recursion on the components' own sorted streams (`NGramHandler::active_`)
+  let r1 := handleK (cs.map (·.1)) (2 * (unionGrams cs).length + 10)
+    ((List.range mo).map (fun j => initActs cs (j + 1))) [] (mergeFb cs [])
   let p1ok := r1.1.all (·.isEmpty) && r1.2.all (fun rec => decide (rec = p1Rec cs rec.gram)) &&
     decide (r1.2.length = (unionGrams cs).length)
+  -- pass-1 record + the charging loop over the BackoffMatrix = weighted back-off score, exactly
+  let matok := (unionGrams cs).all (fun g =>
+    let M := pathMat cs (mo - 1) g.1
+    decide (((cs.zipIdx.map (fun pi =>
+      pi.1.1 * ((pi.1.2.merge g.1 g.2).1 + (chargeLoop M pi.2 (pi.1.2.merge g.1 g.2).2 g.1.length).2))).sum) =
+        usum cs g.1 g.2))
   let zip := (List.range (mo - 1)).all (fun j => decide (backoffStream cs (j + 1) = probStream3 cs (j + 1)))
-  s!"stream shape={shape} consumed={consumed} events={r.2.length} probs={nprob} maxdev={fbits dev} zip={zip} p1shape={p1shape} p1ok={p1ok}"
+  s!"stream shape={shape} consumed={consumed} events={r.2.length} probs={nprob} maxdev={fbits dev} zip={zip} p1shape={p1shape} p1ok={p1ok} matok={matok}"
 
 def step (s : St) (line : String) : St × String :=
   match words line with
